@@ -10,12 +10,20 @@ Domain : configuration (Colang 1.0 / 2.x, 1-4 input rails drawn in order from th
          with `name` a context variable defined at that point - no marker: the literal text is its own marker
          x (Colang 1.0) generation options per call: earlier calls with the input rails switched off / other options,
          later calls that leave them on.
+         x (enable_rails_exceptions) the event type of the rail exception of every generated check rail: InputRailException,
+         names of shipped rails (ContentSafetyCheckInputException, LlamaGuardInputRailException), custom `...Exception` names
+         x (Colang 2.x) one or two more flows, in interaction loops of their own, that wait for the user utterance next to
+         the main-loop dialog flow (any utterance / one text; then LLM call, generated value, dialog action or fixed message);
+         optionally the main-loop flow is the one that waits for one text only.
 Oracle : reference model of the input chain (vf.pipeline.model_input) checked on three observation channels:
          (a) trace of rail-action invocations (order, text seen), (b) prompt log of the scripted LLM,
          (c) the value returned by generate.
 Not asserted (DESIGN 4/C01 S): what output rails do with the refusal; retrieval rails running while the refusal is
          generated; Colang 2.x rewriting (v2 rails are check-only); the content of the reply of an un-blocked turn.
 """
+import json
+import re
+
 from hypothesis import strategies as st
 
 from vf import fakes, pipeline
@@ -27,7 +35,7 @@ LEVEL = "exploration"
 CASE_TIMEOUT = 60
 WALL = {"quick": 170, "thorough": 1500}
 RULE = (
-    "case = configuration (v1 ~85% / v2 ~15%; 1-4 ordered input rails from {check, rewrite(v1), block-or-rewrite(v1), shipped "
+    "case = configuration (v1 ~83% / v2 ~17%; 1-4 ordered input rails from {check, rewrite(v1), block-or-rewrite(v1), shipped "
     "self check input}; 0-2 output rails; retrieval rail 0/1 (v1); dialog rails on/off; enable_rails_exceptions on/off; v2 rails "
     "declared in config.yml or hand-written `flow input rails $input_text`) x 1-4 turns, each with a user text = hostile "
     "characters/intents around a unique marker, a dialog route (predefined / LLM / mixed / LLM-chosen next step / custom action) "
@@ -40,9 +48,19 @@ RULE = (
     "every rail, every later stage and every prompt must show. Three in seven v1 conversations pass generation options per call (plans: the same options "
     "in every call / drawn per call / one call with the input rails switched off - options.rails as dict or as list without 'input' - and every other "
     "call with options that leave them on or no options): a call that does not switch the input rails off is judged like any other, a call that does is not judged. "
-    "Enumerated families: every reference name x four v1 and three v2 configurations; input-off spelling x later options x position of the input-off call. "
+    "Two thirds of the configurations with enable_rails_exceptions draw the event type of the rail exception per generated check / block-or-rewrite rail "
+    "(InputRailException, ContentSafetyCheckInputException, LlamaGuardInputRailException, three custom names ending in `Exception`; the shipped rail keeps its own): "
+    "the reply to a rejected message must be the rail-exception message of the rejecting rail under ITS event type (Colang 1.0: role `exception`). "
+    "Colang 2.x is 1 case in 6; two thirds of its configurations without `llm continuation` add one or two flows in interaction loops of their own (two loop names, so two listeners "
+    "may share a loop) that wait for the user utterance as well - `user said something` (2/3) or `user said \"<the plain text of one turn>\"` - and then call the LLM "
+    "(PassthroughLLMAction), generate a value (`...`), run a dialog action or say a fixed text; in a third of those with an any-utterance listener the main-loop dialog flow "
+    "waits for one text only. For a turn heard by k >= 2 flows the rail trace must be a merge of complete copies of the reference chain (each waiting flow hands the message to the rails), "
+    "the first dialog/generation step of any flow comes after one complete accepting pass, and on a reject no flow makes an LLM call / runs a dialog action and the reply holds nothing but the refusal (at most once per pass) / the rail exception. "
+    "Enumerated families: every reference name x four v1 and three v2 configurations; input-off spelling x later options x position of the input-off call; "
+    "every exception event type x two v1 and two v2 configurations with each rail rejecting once; listener action x awaited text x rail style x refusal/exception (one or two listeners, main flow waiting for anything / one text). "
     "Non-trivial = at least 2 input rails and (a reject after an accepting/rewriting rail, or a rewrite followed by a later "
-    "rail) in some turn, or a reject in a turn >= 2, or an exact `$name` user text in a turn >= 2, or a judged call after a call that switched the input rails off; distinct by the whole case."
+    "rail) in some turn, or a reject in a turn >= 2, or an exact `$name` user text in a turn >= 2, or a judged call after a call that switched the input rails off, "
+    "or a turn heard by flows in >= 2 interaction loops with >= 2 rails or a reject; distinct by the whole case."
 )
 ASSUMPTIONS = [
     "rail actions are fakes registered with register_action (system actions, like the shipped self-check actions); the shipped `self check input` rail is driven by the scripted LLM's yes/no",
@@ -52,7 +70,10 @@ ASSUMPTIONS = [
     "raw passthrough mode (passthrough without dialog rails) hands the caller's own message list to the LLM: there only the message of the current turn (last list element) is asserted to be the rewritten one, earlier turns are the caller's business",
     "a call made with the input rails switched off by its generation options (options.rails.input false / a rails list without 'input') is not judged at all here (C16 owns what such a call does); its user text counts as sent un-rewritten",
     "the library can put the rewritten text of EARLIER turns into later prompts only while it recognises the conversation (same options + same messages); when the options differ between the calls of a conversation the history is rebuilt from the caller's own messages, so what earlier turns look like in later prompts is asserted only while all calls so far used identical options",
-    "a user text / rewrite product that is exactly `$name` is its own marker: presence checks use the literal, and the must-not-appear checks are skipped for a literal that is also a substring of another text of the same conversation",
+    "a user text / rewrite product that is exactly `$name` is its own marker: presence checks use the literal, and the must-not-appear checks are skipped for a literal that is also a substring of another text of the same conversation or of a predefined user/bot message of the loaded configuration (the library shows those to the LLM as examples; the shipped `bot response untrustworthy` text starts with `$bot_message`)",
+    "rail-exception event types are generated with names that end in `Exception` only (the shipped rails' convention and what the documentation shows); which other events a reply may carry is not asserted",
+    "Colang 2.x flows in several interaction loops that wait for the same utterance each hand it to the input rails (the library's `user said` does): how OFTEN the chain runs for one message is not asserted (>= 1 complete pass, every pass complete and in order), nor in which order the flows' replies appear; a turn nobody in the main loop waits for is judged like any other turn",
+    "listeners are not combined with the library's `llm continuation` (its handling of utterances no main-loop flow waits for is C11's subject)",
     "a turn that needs more than 100 internal events makes the Colang 1.0 runtime raise `Too many events.` (safety limit); such cases (many rails + long routes) are counted as skipped, not judged",
 ]
 
@@ -86,6 +107,84 @@ OPTS_OFF = [
 ]
 
 
+# Event type of the rail exception a generated check rail raises when it rejects (enable_rails_exceptions).  The shipped
+# rails use names of their own (`self check input`: InputRailException, `content safety check input`:
+# ContentSafetyCheckInputException, `llama guard check input`: LlamaGuardInputRailException ...), custom rails any name.
+EXC_DEFAULT = "InputRailException"
+EXC_TYPES = [EXC_DEFAULT, "VfCheckInputException", "ContentSafetyCheckInputException", "VfCustomException", "LlamaGuardInputRailException", "VfPolicyViolationException"]
+
+# Colang 2.x: extra flows, each in an interaction loop of its own, that wait for the user utterance next to the main-loop
+# dialog flow `vf turn`.  "on": "any" (`user said something`) or {"text": literal} (`user said "<literal>"`);
+# "do": what the flow does once `user said` has finished.
+LOOPS = ["answers", "vfside"]
+LISTEN_DO = ["llm", "gen", "act", "say"]
+LISTEN_TEXTS = ["hi there", "what can you do", "tell me more"]
+NLD_TAG = "VF-NLD"
+
+
+def mk_listen(j):
+    return f"LISTEN{j}Z"
+
+
+def _listener_flow(j, spec):
+    lines = [f'@loop("{spec["loop"]}")', f"flow vf listener l{j}", "  global $user_message"]
+    lines.append("  user said something" if spec["on"] == "any" else f'  user said "{spec["on"]["text"]}"')
+    if spec["do"] == "llm":
+        lines += ["  $text = await PassthroughLLMAction(user_message=$user_message)", "  bot say $text"]
+    elif spec["do"] == "gen":
+        lines += [f'  $text = ..."{NLD_TAG} a short and helpful answer to the last user message"', "  bot say $text"]
+    elif spec["do"] == "act":
+        lines += ["  await VfDialogAction()", f'  bot say "{mk_listen(j)} noted"']
+    elif spec["do"] == "say":
+        lines += [f'  bot say "{mk_listen(j)} noted"']
+    else:
+        raise ValueError(spec["do"])
+    return "\n".join(lines) + "\n"
+
+
+def _ext_build(cfg, co, y):
+    """Post-processing of the configuration vf.pipeline generates (opt-in through cfg["ext"] == "c01"):
+    cfg["in_exc"][i] = event type of the rail exception of generated input rail i (None: InputRailException);
+    cfg["listeners"] = [{"loop", "on", "do"}, ...] (Colang 2.x, dialog False/True); cfg["main_on"] = {"text": literal}."""
+    word = "create event" if cfg["v"] == 1 else "send"
+    for i, typ in enumerate(cfg.get("in_exc") or []):
+        if typ is None or typ == EXC_DEFAULT:
+            continue
+        old = f'{word} {EXC_DEFAULT}(message="{block_message("in", i, cfg["in"][i])}")'
+        if co.count(old) != 1:
+            raise RuntimeError(f"c01 extension: rail in{i} of {cfg} has no single {old!r}")
+        co = co.replace(old, f'{word} {typ}(message="{block_message("in", i, cfg["in"][i])}")')
+    listeners = cfg.get("listeners") or []
+    if listeners:
+        head = "flow main\n  activate vf turn\n"
+        if cfg["v"] != 2 or co.count(head) != 1:
+            raise RuntimeError("c01 extension: listeners need the generated Colang 2.x `flow main`")
+        co = co.replace(head, head + "".join(f"  activate vf listener l{j}\n" for j in range(len(listeners))))
+        co += "\n" + "\n".join(_listener_flow(j, spec) for j, spec in enumerate(listeners))
+    if cfg.get("main_on"):
+        # the main-loop dialog flow waits for one text only; an any-utterance listener (another loop) hears every message
+        head = "flow vf turn\n  global $user_message\n  user said something\n"
+        if co.count(head) != 1 or not any(l["on"] == "any" for l in listeners):
+            raise RuntimeError("c01 extension: main_on needs the generated `flow vf turn` and a listener that waits for any utterance")
+        co = co.replace(head, f'flow vf turn\n  global $user_message\n  user said "{cfg["main_on"]["text"]}"\n')
+    return co, y
+
+
+pipeline.register_extension("c01", build_config=_ext_build)
+
+
+def waiting(cfg, spec):
+    """Interaction loops of the flows whose `user said ...` matches the user text of this turn: the dialog flow `vf turn`
+    (loop "main"; it waits for any utterance unless cfg["main_on"] names one text) and the listeners."""
+    on = [("main", cfg.get("main_on") or "any")] + [(l["loop"], l["on"]) for l in cfg.get("listeners") or []]
+    return [loop for loop, w in on if w == "any" or w["text"] == spec["user"]]
+
+
+def exc_type(cfg, i):
+    types = cfg.get("in_exc") or []
+    return (types[i] if i < len(types) else None) or EXC_DEFAULT
+
+
 def ref_names(v):
     return (V1_REF_NAMES if v == 1 else V2_REF_NAMES) + UNDEF_REF_NAMES
 
@@ -102,7 +201,7 @@ def input_on(options):
 
 @st.composite
 def _case(draw):
-    v = draw(st.sampled_from([1] * 6 + [2]))
+    v = draw(st.sampled_from([1] * 5 + [2]))
     n_in = draw(st.sampled_from([1, 2, 2, 3, 3, 4]))
     cfg = {"v": v, "in": draw(pipeline.st_rail_kinds(v, n_in, n_in, "in")), "out": draw(pipeline.st_rail_kinds(v, 0, 2, "out"))}
     cfg["dialog"] = draw(st.booleans()) if v == 1 else draw(st.sampled_from([False, True, "llmc"]))
@@ -113,8 +212,32 @@ def _case(draw):
             cfg["passthrough"] = True
     else:
         cfg["style"] = draw(st.sampled_from(["config", "hand"]))
+    if cfg["exc"] and draw(st.sampled_from([False, True, True])):
+        # dimension: the event type of the rail exception, per generated check rail (the shipped rail keeps its own)
+        types = [draw(st.sampled_from(EXC_TYPES)) if k in ("check", "both") else None for k in cfg["in"]]
+        if any(x not in (None, EXC_DEFAULT) for x in types):
+            cfg["in_exc"] = types
+            cfg["ext"] = "c01"
     routes = pipeline.routes_for(cfg)
     n_turns = draw(st.sampled_from([1, 2, 2, 3, 3, 4]))
+    # dimension (Colang 2.x): one or two more flows, in interaction loops of their own, wait for the user utterance as well
+    said = {}  # turn -> the literal text a listener waits for
+    if v == 2 and cfg["dialog"] != "llmc" and draw(st.sampled_from([False, True, True])):
+        listeners = []
+        for j in range(draw(st.sampled_from([1, 1, 2]))):
+            on = "any"
+            if draw(st.sampled_from([False, False, True])):
+                s_t = draw(st.integers(0, n_turns - 1))
+                said.setdefault(s_t, f"{fakes.mk_user(s_t)} {draw(st.sampled_from(LISTEN_TEXTS))}")
+                on = {"text": said[s_t]}
+            listeners.append({"loop": draw(st.sampled_from(LOOPS)) if j else LOOPS[0], "on": on, "do": draw(st.sampled_from(LISTEN_DO))})
+        cfg["listeners"] = listeners
+        cfg["ext"] = "c01"
+        if any(l["on"] == "any" for l in listeners) and draw(st.sampled_from([False, False, True])):
+            # ... and it is the main-loop flow that waits for one text only
+            s_t = draw(st.integers(0, n_turns - 1))
+            said.setdefault(s_t, f"{fakes.mk_user(s_t)} {draw(st.sampled_from(LISTEN_TEXTS))}")
+            cfg["main_on"] = {"text": said[s_t]}
     # dimension: exact variable references (a third of the conversations); the names are used in the drawn order
     refs = draw(st.permutations(ref_names(v))) if draw(st.sampled_from([False, False, True])) else None
     used = [0]
@@ -149,6 +272,10 @@ def _case(draw):
                 rw = [next_ref() if fakes.eff(k, w) == "rewrite" and draw(st.booleans()) else None for k, w in zip(cfg["in"], turn["in"])]
                 if any(rw):
                     turn["rw_ref"] = rw
+        if t in said:
+            # the text one of the listeners waits for (plain words around the marker of the turn)
+            turn["user"] = said[t]
+            turn.pop("ref", None)
         if t >= 1 and draw(st.sampled_from([False, False, True])):
             # the user sends, character by character, the text of an earlier turn again (usually the previous one)
             s = draw(st.sampled_from([t - 1, t - 1, draw(st.integers(0, t - 1))]))
@@ -290,9 +417,44 @@ def enumerate_cases(tier):
                             turn["options"] = opts
                         turns.append(turn)
                     yield {"config": cfg, "turns": turns, "api": "sync"}
+    # the event type of the rail exception: every type x rail shape (Colang 1.0: check / block-or-rewrite, next to the shipped
+    # rail; Colang 2.x: config.yml / hand-written style); the rejecting rail is the first, the second, the shipped one
+    for typ in EXC_TYPES[1:]:
+        for cfg in (
+            {"v": 1, "in": ["check", "both", "self"], "out": [], "dialog": False, "exc": True, "ret": 0, "in_exc": [typ, EXC_TYPES[(EXC_TYPES.index(typ) + 1) % len(EXC_TYPES)], None], "ext": "c01"},
+            {"v": 1, "in": ["both", "check"], "out": ["check"], "dialog": True, "exc": True, "ret": 0, "in_exc": [typ, typ], "ext": "c01"},
+            {"v": 2, "in": ["check", "check", "self"], "out": [], "dialog": False, "exc": True, "style": "config", "in_exc": [typ, EXC_TYPES[(EXC_TYPES.index(typ) + 2) % len(EXC_TYPES)], None], "ext": "c01"},
+            {"v": 2, "in": ["check", "check"], "out": ["check"], "dialog": True, "exc": True, "style": "hand", "in_exc": [None, typ], "ext": "c01"},
+        ):
+            n, n_out = len(cfg["in"]), len(cfg["out"])
+            turns = [{"user": f"{fakes.mk_user(0)} hello there", "route": "llm", "in": ["accept"] * n, "out": ["accept"] * n_out, "body": "first answer"}]
+            for t in range(1, n + 1):
+                turns.append({"user": f"and {fakes.mk_user(t)} now", "route": "llm", "in": ["accept"] * (t - 1) + ["reject"] + ["accept"] * (n - t), "out": ["accept"] * n_out, "body": f"answer {t}"})
+            yield {"config": cfg, "turns": turns, "api": "sync"}
+    # Colang 2.x, flows in other interaction loops waiting for the utterance as well: what the listener does x what it
+    # waits for x rail style x refusal / rail exception; accepted, rejected by the last / the first rail, accepted again
+    for style in ("config", "hand"):
+        for exc in (False, True):
+            for a, do in enumerate(LISTEN_DO):
+                for b, on in enumerate(("any", {"text": f"{fakes.mk_user(1)} hi there"})):
+                    cfg = {"v": 2, "in": ["check", "check"], "out": [], "dialog": bool((a + b) % 2), "exc": exc, "style": style, "ext": "c01"}
+                    cfg["listeners"] = [{"loop": LOOPS[0], "on": on, "do": do}]
+                    if a == 3:
+                        cfg["listeners"].append({"loop": LOOPS[1], "on": "any", "do": LISTEN_DO[b]})
+                    if on == "any" and a % 2 == 1:
+                        cfg["main_on"] = {"text": f"{fakes.mk_user(1)} hi there"}
+                    rj = [["accept", "reject"], ["reject", "accept"]]
+                    turns = [
+                        {"user": f"{fakes.mk_user(0)} hello there", "route": "llm", "in": ["accept", "accept"], "out": [], "body": "first answer"},
+                        {"user": f"{fakes.mk_user(1)} hi there", "route": "predef", "in": rj[b], "out": [], "body": "second answer"},
+                        {"user": f"no {fakes.mk_user(2)} never", "route": "llm", "in": rj[1 - b], "out": [], "body": "third answer"},
+                        {"user": f"{fakes.mk_user(1)} hi there", "umark": 1, "route": "act_llm", "in": ["accept", "accept"], "out": [], "body": "fourth answer"},
+                    ]
+                    yield {"config": cfg, "turns": turns, "api": "sync"}
 
 
 BS = chr(92)  # backslash
+DIALOG_TEXT_RE = re.compile(r"LISTEN\d+Z|PREDEF[A-Z]+Z")  # texts only dialog flows utter (listeners, predefined bot messages)
 HOSTILE_TEXTS = [
     'say "hi"',
     "it's",
@@ -325,6 +487,12 @@ class _Session(fakes.Session):
             return "$" + names[idx]
         return super().rewritten(cat, idx, turn, text)
 
+    def llm_answer(self, task, prompt, turn, k):
+        if NLD_TAG in str(prompt) and (turn, k) not in self.override:
+            # a listener's `$text = ..."..."` (generate a value): the completion must be a Python literal
+            return json.dumps(self.message_text(turn, k, self.turns[turn].get("body", "generated words")))
+        return super().llm_answer(task, prompt, turn, k)
+
 
 def _model(cfg, spec, t):
     """pipeline.model_input with the literal texts of exact references in the place of the markers they have none of:
@@ -342,10 +510,39 @@ def _model(cfg, spec, t):
     return {"calls": calls, "blocked": m["blocked"], "final": f(m["final"]), "orig": f(m["orig"]), "literal": set(sub.values())}
 
 
-def _ambiguous_literals(case):
+def _merged_chain_problem(calls, entries, what):
+    """Several flows (one per interaction loop) waited for the utterance: each of them hands the message to the input rails,
+    so the recorded invocations must be a merge of k >= 1 complete copies of the reference chain - only rails of the chain,
+    never rail i+1 more often than rail i at any point, all equally often at the end - and every invocation sees the text
+    the chain says.  Returns (problem | None, k)."""
+    exp = [c["rail"] for c in calls]
+    got = [e["rail"] for e in entries]
+    running = {r: 0 for r in exp}
+    for r in got:
+        if r not in running:
+            return f"{what}: rail actions invoked {got}, reference model says (copies of) {exp}", 0
+        running[r] += 1
+        i = exp.index(r)
+        if i > 0 and running[exp[i - 1]] < running[r]:
+            return f"{what}: rail actions invoked {got}: {r} ran before {exp[i - 1]} had seen the message; reference model says (copies of) {exp}", 0
+    if not got or len(set(running.values())) != 1:
+        return f"{what}: rail actions invoked {got}, reference model says complete copies of {exp}", 0
+    for e in entries:
+        prob = pipeline.chain_problem([calls[exp.index(e["rail"])]], [e], what)
+        if prob:
+            return prob, 0
+    return None, running[exp[0]]
+
+
+def _ambiguous_literals(case, config=None):
     """Literal texts (`$name`) that are also part of ANOTHER text of the conversation (`$i` in `$input_flows`, `$user_message`
-    inside a hostile text ...): finding such a literal somewhere says nothing about where it came from."""
+    inside a hostile text ...) or of a predefined message of the loaded configuration, which the library shows to the LLM as
+    an example (shipped: bot response untrustworthy = "$bot_message \nCAUTION: ..."): finding such a literal somewhere says
+    nothing about where it came from."""
     texts, lits = set(), set()
+    for table in (getattr(config, "bot_messages", None), getattr(config, "user_messages", None)):
+        for vals in (table or {}).values():
+            texts.update(str(y) for y in (vals if isinstance(vals, (list, tuple)) else [vals]))
     for t, spec in enumerate(case["turns"]):
         texts.add(spec["user"])
         if spec.get("ref"):
@@ -367,6 +564,14 @@ def _check(case, obs):
         labels.append("rails-exceptions")
     if v == 2:
         labels.append("v2-" + cfg.get("style", "config"))
+    for l in cfg.get("listeners") or []:
+        labels += [f"v2-listeners={len(cfg['listeners'])}", "listener-does=" + l["do"], "listener-awaits=" + ("any-utterance" if l["on"] == "any" else "one-text")]
+    if len({l["loop"] for l in cfg.get("listeners") or []}) == 2:
+        labels.append("three-interaction-loops")
+    if cfg.get("main_on"):
+        labels.append("main-loop-flow-awaits=one-text")
+    if cfg.get("in_exc"):
+        labels.append("exception-types=" + ("mixed" if len({exc_type(cfg, i) for i, k in enumerate(cfg["in"]) if k != "rewrite"}) > 1 else "one"))
     if "self" in cfg["in"]:
         labels.append("shipped-self-check-input")
     if cfg.get("passthrough"):
@@ -376,7 +581,7 @@ def _check(case, obs):
     dead_after = None
     raw_mode = bool(cfg.get("passthrough")) and not cfg["dialog"]  # the LLM is handed the caller's message list
     sent_plain, sent_any = set(), set()  # markers of texts that went through un-rewritten / that were sent at all
-    ambiguous = _ambiguous_literals(case)
+    ambiguous = _ambiguous_literals(case, getattr(obs.pipeline, "config", None))
     varied = False  # some call so far used other generation options than the first one: the history may be the caller's messages
     off_before = False  # an earlier call of the conversation switched the input rails off
     for t, (spec, o) in enumerate(zip(case["turns"], obs.turns)):
@@ -407,10 +612,21 @@ def _check(case, obs):
             labels.append("rewrite-product=$variable")
         entries = [e for e in o["trace"] if e["cat"] == "in"]
         what = f"v{v} turn {t} (verdicts {spec['in']}" + (f", options {opts}" if opts is not None else "") + ")"
-        prob = pipeline.chain_problem(m["calls"], entries, what)
+        loops = waiting(cfg, spec) if v == 2 else ["main"]  # interaction loops of the flows that wait for this text
+        heard = len(loops) >= 2
+        copies = 1
+        if v == 2 and cfg.get("listeners"):
+            labels.append(f"heard-by={len(loops)}-flows" + ("" if "main" in loops else "-none-in-main-loop"))
+        if heard:
+            what = f"{what[:-1]}, heard by {len(loops)} flows in {len(set(loops))} interaction loops)"
+            prob, copies = _merged_chain_problem(m["calls"], entries, what)
+            nt = nt or len(cfg["in"]) >= 2
+        else:
+            prob = pipeline.chain_problem(m["calls"], entries, what)
         if prob:
             raise Violation("input-rail-chain", prob, {"turn": t, "v": v, "no_rail_ran": not entries, "dead_after_backslash_turn": dead_after})
-        for c, e in zip(m["calls"], entries):
+        by_rail = {c["rail"]: c for c in m["calls"]}
+        for c, e in ((by_rail[e["rail"]], e) for e in entries):
             # a text that is exactly `$name` must be handed to the rail as it is (not the value of that variable, not a part of it)
             if c["sees"] in m["literal"] and (e["text"] != c["sees"] or (e.get("ctx") is not None and e["ctx"] != c["sees"])):
                 raise Violation("input-rail-chain", f"{what}: {c['rail']} was given {str(e['text'])[:80]!r} (context variable {str(e.get('ctx'))[:80]!r}), the text to check is exactly {c['sees']!r}", {"turn": t, "v": v})
@@ -419,7 +635,14 @@ def _check(case, obs):
         gen = [c for c in o["llm"] if c["task"] in GENERATION_TASKS]
         # (1) rails come first: every input-rail invocation precedes the first dialog/generation step
         later = [c["seq"] for c in gen] + [e["seq"] for e in o["trace"] if e["cat"] in ("dialog", "out", "ret")]
-        if entries and later and max(e["seq"] for e in entries) > min(later):
+        if heard:
+            # each waiting flow may go on once the rails accepted the message for it: the earliest step of any of them comes
+            # after one complete pass of the chain (what a blocked turn may run is checked under (2))
+            if m["blocked"] is None and entries and later:
+                done = min(e["seq"] for e in entries if e["rail"] == m["calls"][-1]["rail"])
+                if min(later) < done:
+                    raise Violation("step-before-input-rails", f"{what}: a dialog/generation step ran before all the input rails had accepted the message", {"turn": t})
+        elif entries and later and max(e["seq"] for e in entries) > min(later):
             raise Violation("step-before-input-rails", f"{what}: a dialog/generation step ran before the input rails had finished", {"turn": t})
         if len(cfg["in"]) and not entries:
             raise Violation("input-rail-chain", f"{what}: no input rail ran", {"turn": t})
@@ -434,6 +657,9 @@ def _check(case, obs):
             if t >= 1:
                 labels.append("block-in-turn>=2")
                 nt = True
+            if heard:
+                labels.append("blocked-while-heard-by>=2-flows")
+                nt = True
             # (2) nothing else sees the message
             if gen:
                 raise Violation(
@@ -447,15 +673,23 @@ def _check(case, obs):
             text = pipeline.reply_text(o)
             if cfg["exc"]:
                 want = block_message("in", i, kind)
-                evs = [e for e in pipeline.reply_exceptions(o) if e.get("type") == "InputRailException"]
+                typ = exc_type(cfg, i)  # the event type this rail raises (shipped / default: InputRailException)
+                labels.append("blocked-exception-type=" + (typ if typ == EXC_DEFAULT else "other-...RailException" if typ.endswith("RailException") else "other-...Exception"))
+                evs = [e for e in pipeline.reply_exceptions(o) if e.get("type") == typ]
                 if not any(e.get("message") == want for e in evs):
-                    raise Violation("refusal-missing", f"{what}: expected an InputRailException with message {want!r}, reply was {o['reply']!r}"[:600], {"turn": t})
+                    raise Violation("refusal-missing", f"{what}: expected the rail exception {typ} with message {want!r}, reply was {o['reply']!r}"[:600], {"turn": t})
+                if v == 1 and (not isinstance(o["reply"], dict) or o["reply"].get("role") != "exception"):
+                    raise Violation("refusal-missing", f"{what}: the reply to a message rejected with {typ} must have the role 'exception', got {o['reply']!r}"[:600], {"turn": t})
                 if fakes.lineage(text):
                     raise Violation("llm-text-after-block", f"{what}: reply carries LLM text {text[:80]!r}", {"turn": t})
+                if DIALOG_TEXT_RE.search(text):
+                    raise Violation("dialog-text-after-block", f"{what}: reply carries a dialog message {text[:80]!r} although rail in{i} rejected the message", {"turn": t})
             else:
                 want = refusal_text("in", i, kind)
                 rep = o["reply"]
-                if not isinstance(rep, dict) or rep.get("role") != "assistant" or text.strip() != want:
+                # (every flow that waited for the message is refused by the rail: the refusal, once per pass of the chain at most)
+                lines = text.strip().split(chr(10)) if copies > 1 else [text.strip()]
+                if not isinstance(rep, dict) or rep.get("role") != "assistant" or len(lines) > copies or any(x.strip() != want for x in lines):
                     raise Violation("refusal-missing", f"{what}: rail in{i} rejected, the reply must be its refusal {want!r}, got {rep!r}"[:600], {"turn": t})
         else:
             if "rewrite" in verdicts:
